@@ -1,42 +1,34 @@
-package filtering
+package dnsforward
 
-// G02 conformance harness, filtering level ($dnsrewrite rules, system-hosts
-// rewrites, precedence among legacy rewrites / hosts / $dnsrewrite / ordinary
-// rules).
+// G02 conformance harness, pipeline level: what the DNS client and the
+// upstream see for $dnsrewrite rules, system-hosts rewrites and their
+// precedence (reply code, records built from the rule values, CNAME resolved
+// through the upstream with the original question restored, hosts answers,
+// nothing asked upstream when answered locally).
 //
-// Direction A (TestZZVerifG02Replay): every vector produced by TLC from
-// specs/DnsRewrite.tla is one configuration (custom rules, allow list, hosts
-// file, hosts_file_enabled, legacy rewrite table, filtering / protection
-// switches) with the admissible outcomes of every question.  The configuration
-// is rendered into real rule text / a real hosts file / a real rewrite table
-// (seeded spellings: shorthand or full $dnsrewrite form, order of modifiers,
-// order of rules and lines, letter case of the question), given to a real
-// filtering.DNSFilter with a real aghnet.HostsContainer, and every question
-// goes through the real CheckHost; the projected result must be in the
-// admissible set.  ONE filter lives on through many configurations: it is
-// reconfigured the way the running server is (POST
-// /control/filtering/set_rules, a rewritten hosts file reported by the
-// watcher, /control/rewrite/add|delete, SetProtectionEnabled, SetEnabled); a
-// fresh filter is built when hosts_file_enabled or the allow list differ (a
-// restart) and every few dozen configurations.
+// One real Server (UDP listener on loopback, real filtering.DNSFilter with a
+// real aghnet.HostsContainer) with a recording mock upstream whose behaviour
+// (answer / no data / NXDOMAIN / SERVFAIL) is a seeded function of the asked
+// name.  The server is reconfigured while it runs: custom rules through POST
+// /control/filtering/set_rules, the hosts file through the watcher, the legacy
+// table through /control/rewrite/add|delete, protection through POST
+// /control/protection; a fresh server is built when hosts_file_enabled or the
+// allow list differ and every few dozen configurations.
 //
-// Histories (TestZZVerifG02Hist): an edge-covering walk of the
-// reconfiguration machine of DnsRewrite.tla on ONE live filter; after every
-// step every question is asked again.
-//
-// Direction B (TestZZVerifG02Trace): random configurations from a larger
-// universe on a live filter, logged for specs/TraceDnsRewrite.tla.
-//
-// A disagreement is reproduced before it is reported: on a fresh filter built
-// directly from the configuration (twice), and, if it does not show there, by
-// rehearsing the last reconfiguration (fresh filter with the previous
-// configuration, the same step, the same question).
+// The harness has NO expectations of its own: it logs the configuration in
+// force and, per question, the projected observation; specs/TraceDnsRewrite.tla
+// (DnsRewriteCore's own Outcomes and Serve) accepts or rejects every line.
+//   TestZZVerifG02Pipeline   direction A: configurations enumerated by TLC
+//   TestZZVerifG02PipeTrace  direction B: random larger configurations
+//   TestZZVerifG02PipeProbe  a rejected line re-executed alone on a fresh server
 
 import (
 	"bytes"
 	"encoding/json"
 	"fmt"
+	"hash/fnv"
 	"math/rand"
+	"net"
 	"net/http"
 	"net/http/httptest"
 	"net/netip"
@@ -45,15 +37,20 @@ import (
 	"sort"
 	"strconv"
 	"strings"
+	"sync"
 	"testing"
 	"testing/fstest"
 	"time"
 
 	"github.com/AdguardTeam/AdGuardHome/internal/aghnet"
 	"github.com/AdguardTeam/AdGuardHome/internal/aghtest"
+	"github.com/AdguardTeam/AdGuardHome/internal/filtering"
 	"github.com/AdguardTeam/AdGuardHome/internal/filtering/rulelist"
+	"github.com/AdguardTeam/AdGuardHome/internal/schedule"
+	"github.com/AdguardTeam/dnsproxy/proxy"
+	"github.com/AdguardTeam/dnsproxy/upstream"
+	"github.com/AdguardTeam/golibs/logutil/slogutil"
 	"github.com/AdguardTeam/golibs/netutil"
-	"github.com/AdguardTeam/urlfilter/rules"
 	"github.com/miekg/dns"
 )
 
@@ -491,8 +488,8 @@ func (c *zzG02Conc) render(cfg *zzG02Cfg, salt string) (t zzG02Text) {
 	return t
 }
 
-func (c *zzG02Conc) legacy(e *zzG02LEntry) (rw *LegacyRewrite) {
-	rw = &LegacyRewrite{Domain: c.name(e.N)}
+func (c *zzG02Conc) legacy(e *zzG02LEntry) (rw *filtering.LegacyRewrite) {
+	rw = &filtering.LegacyRewrite{Domain: c.name(e.N)}
 	if e.W {
 		rw.Domain = "*." + rw.Domain
 	}
@@ -527,121 +524,153 @@ func zzG02Spell(s string, variant uint32) (r string) {
 	}
 }
 
-// absValue projects one record value of a $dnsrewrite / hosts result.
-func (c *zzG02Conc) absValue(qt uint16, v rules.RRValue, hosts bool) (a []string) {
-	switch v := v.(type) {
-	case netip.Addr:
-		return []string{c.absIP(v)}
-	case string:
-		if hosts {
-			return c.absName(v)
-		}
-		t := dns.TypeToString[qt]
-		for k, text := range zzG02ValText {
-			if strings.HasPrefix(k, t+"/") && strings.TrimSuffix(text, ".") == strings.TrimSuffix(v, ".") {
-				return []string{strings.TrimPrefix(k, t+"/")}
-			}
-		}
+// ------------------------------------------------------------ mock upstream
 
-		return []string{"?str:" + v}
-	case *rules.DNSMX:
-		return []string{c.structured("MX", fmt.Sprintf("%d %s", v.Preference, v.Exchange))}
-	case *rules.DNSSVCB:
-		s := fmt.Sprintf("%d %s", v.Priority, v.Target)
-		ks := []string{}
-		for k, val := range v.Params {
-			ks = append(ks, k+"="+val)
-		}
-		sort.Strings(ks)
-		if len(ks) > 0 {
-			s += " " + strings.Join(ks, " ")
-		}
+// zzG02Upstream answers every question with records derived from the question
+// name, or, for some names, with no data / NXDOMAIN / SERVFAIL, and logs the
+// questions.
+type zzG02Upstream struct {
+	mu    sync.Mutex
+	seed  int64
+	epoch int
+	log   [][2]string
+	// data maps the textual data of every record ever served to the name it
+	// was served for.
+	data map[string]string
+}
 
-		return []string{c.structured(dns.TypeToString[qt], s)}
-	case *rules.DNSSRV:
-		return []string{c.structured("SRV", fmt.Sprintf("%d %d %d %s", v.Priority, v.Weight, v.Port, v.Target))}
-	case nil:
-		return []string{"?nil"}
+func zzG02UpData(name string, qt uint16) (s string) {
+	h := fnv.New32a()
+	_, _ = h.Write([]byte(name))
+	x := h.Sum32()
+	switch qt {
+	case dns.TypeA:
+		return netip.AddrFrom4([4]byte{10, byte(x >> 16), byte(x >> 8), byte(x)}).String()
+	case dns.TypeAAAA:
+		return netip.AddrFrom16([16]byte{0xfd, 0x99, 12: byte(x >> 24), 13: byte(x >> 16), 14: byte(x >> 8), 15: byte(x)}).String()
 	default:
-		return []string{fmt.Sprintf("?%T", v)}
+		return "up:" + name
 	}
 }
 
-func (c *zzG02Conc) structured(t, text string) (tok string) {
-	for k, v := range zzG02ValText {
-		if strings.HasPrefix(k, t+"/") && v == text {
-			return strings.TrimPrefix(k, t+"/")
-		}
-	}
+func (u *zzG02Upstream) setEpoch(e int) {
+	u.mu.Lock()
+	defer u.mu.Unlock()
 
-	return "?" + t + ":" + text
+	u.epoch = e
 }
 
-// abs projects a Result onto the spec's outcome.
-func (c *zzG02Conc) abs(res *Result, qt uint16) (o zzG02Out) {
-	o = zzG02Out{Canon: []string{}, Vals: [][]string{}}
-	switch res.Reason {
-	case NotFilteredNotFound:
-		o.R = "none"
-	case Rewritten:
-		o.R, o.Rcode = "legacy", "NOERROR"
-		o.Canon = c.absName(res.CanonName)
-		for _, ip := range res.IPList {
-			o.Vals = append(o.Vals, []string{c.absIP(ip)})
-		}
-
-		return o
-	case RewrittenAutoHosts:
-		o.R = "hosts"
-	case RewrittenRule:
-		o.R = "rule"
-	case FilteredBlockList:
-		o.R = "block"
-
-		return o
-	case NotFilteredAllowList:
-		o.R = "allow"
-
-		return o
+// mode is what the upstream does when asked for name: it answers five names
+// out of eight, has no data for one, says that one does not exist and fails
+// for one; the assignment changes with every configuration (epoch).
+func (u *zzG02Upstream) mode(name string) (m string) {
+	h := fnv.New32a()
+	u.mu.Lock()
+	epoch := u.epoch
+	u.mu.Unlock()
+	_, _ = h.Write([]byte(fmt.Sprintf("%d/%d/%s", u.seed, epoch, strings.ToLower(name))))
+	switch h.Sum32() % 8 {
+	case 5:
+		return "nodata"
+	case 6:
+		return "nxdomain"
+	case 7:
+		return "servfail"
 	default:
-		o.R = "other:" + res.Reason.String()
-
-		return o
+		return "answer"
 	}
-
-	if res.CanonName != "" {
-		o.Canon = c.absName(res.CanonName)
-	}
-	if rr := res.DNSRewriteResult; rr != nil {
-		o.Rcode = dns.RcodeToString[rr.RCode]
-		for _, v := range rr.Response[qt] {
-			o.Vals = append(o.Vals, c.absValue(qt, v, res.Reason == RewrittenAutoHosts))
-		}
-	} else if res.CanonName == "" && res.Reason != NotFilteredNotFound {
-		o.Rcode = "?nil"
-	}
-
-	return o
 }
 
-// ------------------------------------------------------------------ filter
+func (u *zzG02Upstream) Exchange(req *dns.Msg) (resp *dns.Msg, err error) {
+	q := req.Question[0]
+	name := strings.ToLower(strings.TrimSuffix(q.Name, "."))
+	data := zzG02UpData(name, q.Qtype)
+	m := u.mode(name)
 
-type zzG02Filter struct {
-	t        testing.TB
+	u.mu.Lock()
+	u.log = append(u.log, [2]string{name, dns.TypeToString[q.Qtype]})
+	if m == "answer" {
+		u.data[data] = name
+	}
+	u.mu.Unlock()
+
+	resp = (&dns.Msg{}).SetReply(req)
+	resp.RecursionAvailable = true
+	switch m {
+	case "nodata":
+		return resp, nil
+	case "nxdomain":
+		resp.Rcode = dns.RcodeNameError
+
+		return resp, nil
+	case "servfail":
+		resp.Rcode = dns.RcodeServerFailure
+
+		return resp, nil
+	}
+
+	hdr := dns.RR_Header{Name: q.Name, Rrtype: q.Qtype, Class: dns.ClassINET, Ttl: 300}
+	switch q.Qtype {
+	case dns.TypeA:
+		resp.Answer = []dns.RR{&dns.A{Hdr: hdr, A: net.ParseIP(data)}}
+	case dns.TypeAAAA:
+		resp.Answer = []dns.RR{&dns.AAAA{Hdr: hdr, AAAA: net.ParseIP(data)}}
+	default:
+		hdr.Rrtype = dns.TypeTXT
+		resp.Answer = []dns.RR{&dns.TXT{Hdr: hdr, Txt: []string{data}}}
+	}
+
+	return resp, nil
+}
+
+func (u *zzG02Upstream) Address() (addr string) { return "upstream.example" }
+func (u *zzG02Upstream) Close() (err error)     { return nil }
+
+func (u *zzG02Upstream) take() (log [][2]string) {
+	u.mu.Lock()
+	defer u.mu.Unlock()
+
+	log, u.log = u.log, nil
+
+	return log
+}
+
+func (u *zzG02Upstream) owner(data string) (name string, ok bool) {
+	u.mu.Lock()
+	defer u.mu.Unlock()
+
+	name, ok = u.data[data]
+
+	return name, ok
+}
+
+var _ upstream.Upstream = (*zzG02Upstream)(nil)
+
+type zzG02DHCP struct{}
+
+func (zzG02DHCP) HostByIP(_ netip.Addr) (host string) { return "" }
+func (zzG02DHCP) IPByHost(_ string) (ip netip.Addr)   { return netip.Addr{} }
+func (zzG02DHCP) Enabled() (ok bool)                  { return false }
+
+// ------------------------------------------------------------------- server
+
+type zzG02Srv struct {
 	conc     *zzG02Conc
-	f        *DNSFilter
-	conf     *Config
+	s        *Server
+	ups      *zzG02Upstream
+	f        *filtering.DNSFilter
+	fconf    *filtering.Config
 	hc       *aghnet.HostsContainer
 	fsys     fstest.MapFS
 	events   chan struct{}
 	handlers map[string]http.HandlerFunc
+	addr     string
 	dir      string
 	gen      int
 	cur      zzG02Cfg
 	curText  zzG02Text
 	age      int
-	// counters
-	stats map[string]int
+	stats    map[string]int
 }
 
 const (
@@ -651,46 +680,44 @@ const (
 	zzG02BlockID     = 4202
 )
 
-func (z *zzG02Filter) hostsData(lines []string) (b []byte) {
+func (z *zzG02Srv) hostsData(lines []string) (b []byte) {
 	z.gen++
 	all := append(append([]string{"# zz-g02"}, lines...), "192.0.2.254 "+fmt.Sprintf(zzG02HostsMarker, z.gen))
 
 	return []byte(strings.Join(all, "\n") + "\n")
 }
 
-func zzG02ListBody(lines []string) (b []byte) {
-	return []byte("! Title: zz-g02\n" + strings.Join(lines, "\n") + "\n")
-}
-
-// zzG02NewFilter builds a fresh filter for cfg the way package home does:
-// configuration object, New, Start, EnableFilters.
-func zzG02NewFilter(t testing.TB, conc *zzG02Conc, cfg *zzG02Cfg, salt string, stats map[string]int) (z *zzG02Filter, err error) {
-	z = &zzG02Filter{t: t, conc: conc, handlers: map[string]http.HandlerFunc{}, stats: stats}
+// zzG02NewSrv builds a fresh filter and server for cfg.
+func zzG02NewSrv(conc *zzG02Conc, ups *zzG02Upstream, cfg *zzG02Cfg, salt string, stats map[string]int) (z *zzG02Srv, err error) {
+	z = &zzG02Srv{conc: conc, ups: ups, handlers: map[string]http.HandlerFunc{}, stats: stats}
 	z.dir, err = os.MkdirTemp("", "zz-g02-")
 	if err != nil {
 		return nil, err
 	}
 
 	text := conc.render(cfg, salt)
-	fdir := filepath.Join(z.dir, filterDir)
+	fdir := filepath.Join(z.dir, "filters")
 	if err = os.MkdirAll(fdir, 0o755); err != nil {
 		return nil, err
 	}
 
 	z.gen++
 	marker := "||" + fmt.Sprintf(zzG02RuleMarker, z.gen) + "^"
-	z.conf = &Config{
-		DataDir:           z.dir,
-		UserRules:         append(append([]string{}, text.Custom...), marker),
-		FilteringEnabled:  cfg.Filt,
-		ProtectionEnabled: cfg.Prot,
-		ConfigModified:    func() {},
+	z.fconf = &filtering.Config{
+		ApplyClientFiltering: func(_ string, _ netip.Addr, _ *filtering.Settings) {},
+		BlockedServices:      &filtering.BlockedServices{Schedule: schedule.EmptyWeekly()},
+		BlockingMode:         filtering.BlockingModeDefault,
+		DataDir:              z.dir,
+		UserRules:            append(append([]string{}, text.Custom...), marker),
+		FilteringEnabled:     cfg.Filt,
+		ProtectionEnabled:    cfg.Prot,
+		ConfigModified:       func() {},
 		HTTPRegister: func(method, url string, h http.HandlerFunc) {
 			z.handlers[method+" "+url] = h
 		},
 	}
 	for _, e := range cfg.Legacy {
-		z.conf.Rewrites = append(z.conf.Rewrites, conc.legacy(&e))
+		z.fconf.Rewrites = append(z.fconf.Rewrites, conc.legacy(&e))
 	}
 
 	lists := []struct {
@@ -703,20 +730,20 @@ func zzG02NewFilter(t testing.TB, conc *zzG02Conc, cfg *zzG02Cfg, salt string, s
 			continue
 		}
 		p := filepath.Join(fdir, strconv.Itoa(l.id)+".txt")
-		if err = os.WriteFile(p, zzG02ListBody(l.lines), 0o644); err != nil {
+		body := "! Title: zz-g02\n" + strings.Join(l.lines, "\n") + "\n"
+		if err = os.WriteFile(p, []byte(body), 0o644); err != nil {
 			return nil, err
 		}
-		y := FilterYAML{Enabled: true, URL: "https://lists.example/" + strconv.Itoa(l.id) + ".txt", Name: "zz-g02",
-			Filter: Filter{ID: rulelist.URLFilterID(l.id)}}
+		y := filtering.FilterYAML{Enabled: true, URL: "https://lists.example/" + strconv.Itoa(l.id) + ".txt", Name: "zz-g02",
+			Filter: filtering.Filter{ID: rulelist.URLFilterID(l.id)}}
 		if l.white {
-			z.conf.WhitelistFilters = append(z.conf.WhitelistFilters, y)
+			z.fconf.WhitelistFilters = append(z.fconf.WhitelistFilters, y)
 		} else {
-			z.conf.Filters = append(z.conf.Filters, y)
+			z.fconf.Filters = append(z.fconf.Filters, y)
 		}
 	}
 
 	if cfg.HostsOn {
-		// home: conf.EtcHosts is the container unless hosts_file_enabled is off.
 		z.fsys = fstest.MapFS{"etc/hosts": &fstest.MapFile{Data: z.hostsData(text.Hosts)}}
 		z.events = make(chan struct{})
 		w := &aghtest.FSWatcher{
@@ -729,24 +756,60 @@ func zzG02NewFilter(t testing.TB, conc *zzG02Conc, cfg *zzG02Cfg, salt string, s
 		if err != nil {
 			return nil, fmt.Errorf("hosts container: %w", err)
 		}
-		z.conf.EtcHosts = z.hc
+		z.fconf.EtcHosts = z.hc
 	}
 
-	z.f, err = New(z.conf, nil)
+	z.f, err = filtering.New(z.fconf, nil)
 	if err != nil {
 		return nil, fmt.Errorf("filtering.New: %w", err)
 	}
 
-	// EnableFilters also puts Config.FilteringEnabled in force.
 	z.f.Start()
 	z.f.EnableFilters(false)
+
+	z.s, err = NewServer(DNSCreateParams{
+		DHCPServer:  zzG02DHCP{},
+		DNSFilter:   z.f,
+		PrivateNets: netutil.SubnetSetFunc(netutil.IsLocallyServed),
+		Logger:      slogutil.NewDiscardLogger(),
+	})
+	if err != nil {
+		return nil, fmt.Errorf("NewServer: %w", err)
+	}
+
+	err = z.s.Prepare(&ServerConfig{
+		UDPListenAddrs: []*net.UDPAddr{{IP: net.IP{127, 0, 0, 1}}},
+		TCPListenAddrs: []*net.TCPAddr{{IP: net.IP{127, 0, 0, 1}}},
+		TLSConf:        &TLSConfig{},
+		Config: Config{
+			UpstreamDNS:      []string{"8.8.8.8:53"},
+			UpstreamMode:     UpstreamModeLoadBalance,
+			EDNSClientSubnet: &EDNSClientSubnet{Enabled: false},
+			ClientsContainer: EmptyClientsContainer{},
+		},
+		ConfigModified: func() {},
+		ServePlainDNS:  true,
+	})
+	if err != nil {
+		return nil, fmt.Errorf("Prepare: %w", err)
+	}
+
+	z.s.conf.UpstreamConfig.Upstreams = []upstream.Upstream{z.ups}
+	if err = z.s.Start(); err != nil {
+		return nil, fmt.Errorf("Start: %w", err)
+	}
+
+	z.addr = z.s.dnsProxy.Addr(proxy.ProtoUDP).String()
 	z.cur, z.curText = *cfg, text
-	stats["fresh_filters"]++
+	stats["fresh_servers"]++
 
 	return z, nil
 }
 
-func (z *zzG02Filter) close() {
+func (z *zzG02Srv) close() {
+	if z.s != nil {
+		_ = z.s.Stop()
+	}
 	if z.f != nil {
 		z.f.Close()
 	}
@@ -756,12 +819,7 @@ func (z *zzG02Filter) close() {
 	_ = os.RemoveAll(z.dir)
 }
 
-func (z *zzG02Filter) call(key string, body any) (err error) {
-	h, ok := z.handlers[key]
-	if !ok {
-		return fmt.Errorf("no handler %s", key)
-	}
-
+func (z *zzG02Srv) callH(h http.HandlerFunc, key string, body any) (err error) {
 	b, _ := json.Marshal(body)
 	parts := strings.SplitN(key, " ", 2)
 	r := httptest.NewRequest(parts[0], parts[1], bytes.NewReader(b))
@@ -775,8 +833,16 @@ func (z *zzG02Filter) call(key string, body any) (err error) {
 	return nil
 }
 
-// compatible: can the live filter be brought to cfg without a restart?
-func (z *zzG02Filter) compatible(cfg *zzG02Cfg) (ok bool) {
+func (z *zzG02Srv) call(key string, body any) (err error) {
+	h, ok := z.handlers[key]
+	if !ok {
+		return fmt.Errorf("no handler %s", key)
+	}
+
+	return z.callH(h, key, body)
+}
+
+func (z *zzG02Srv) compatible(cfg *zzG02Cfg) (ok bool) {
 	if z.cur.HostsOn != cfg.HostsOn {
 		return false
 	}
@@ -796,10 +862,8 @@ func (z *zzG02Filter) compatible(cfg *zzG02Cfg) (ok bool) {
 	return lists(&z.cur) == lists(cfg)
 }
 
-// apply brings the LIVE filter to cfg through the entry points a running
-// server uses.  Only what differs is touched (and, seeded, sometimes what does
-// not).
-func (z *zzG02Filter) apply(cfg *zzG02Cfg, salt string) (err error) {
+// apply reconfigures the LIVE server.
+func (z *zzG02Srv) apply(cfg *zzG02Cfg, salt string) (err error) {
 	text := z.conc.render(cfg, salt)
 	h := z.conc.bits("apply/" + salt)
 
@@ -821,9 +885,7 @@ func (z *zzG02Filter) apply(cfg *zzG02Cfg, salt string) (err error) {
 		if err = z.call("POST /control/filtering/set_rules", body); err != nil {
 			return err
 		}
-		// The handler rebuilds the engines asynchronously: wait until the
-		// rules of THIS request are in force.
-		setts := &Settings{FilteringEnabled: true, ProtectionEnabled: true}
+		setts := &filtering.Settings{FilteringEnabled: true, ProtectionEnabled: true}
 		deadline := time.Now().Add(10 * time.Second)
 		for {
 			res, cerr := z.f.CheckHostRules(marker, dns.TypeA, setts)
@@ -842,7 +904,6 @@ func (z *zzG02Filter) apply(cfg *zzG02Cfg, salt string) (err error) {
 
 	hostsOf := func(c *zzG02Cfg) (s string) { return zzG02CfgKey(&zzG02Cfg{Hosts: c.Hosts}) }
 	if z.hc != nil && (hostsOf(&z.cur) != hostsOf(cfg) || h%7 == 0) {
-		// The file changes and the watcher reports it.
 		z.fsys["etc/hosts"] = &fstest.MapFile{Data: z.hostsData(text.Hosts)}
 		marker := fmt.Sprintf(zzG02HostsMarker, z.gen)
 		z.events <- struct{}{}
@@ -884,12 +945,13 @@ func (z *zzG02Filter) apply(cfg *zzG02Cfg, salt string) (err error) {
 	}
 
 	if z.cur.Prot != cfg.Prot {
-		z.f.SetProtectionEnabled(cfg.Prot)
+		// dnsforward's own handler of POST /control/protection
+		if err = z.callH(z.s.handleSetProtection, "POST /control/protection", map[string]any{"enabled": cfg.Prot}); err != nil {
+			return err
+		}
 		z.stats["live_prot"]++
 	}
 	if z.cur.Filt != cfg.Filt {
-		// filtering_enabled: POST /control/filtering/config (the flag is in
-		// force when the handler returns; interval 0 = no periodic refresh).
 		if err = z.call("POST /control/filtering/config", map[string]any{"enabled": cfg.Filt, "interval": 0}); err != nil {
 			return err
 		}
@@ -902,150 +964,180 @@ func (z *zzG02Filter) apply(cfg *zzG02Cfg, salt string) (err error) {
 	return nil
 }
 
-// ask puts one question the way dnsforward does: the filter's settings, the
-// protection status and the client's address.
-func (z *zzG02Filter) ask(rq *zzG02Rq, variant uint32) (o zzG02Out, err error) {
-	setts := z.f.Settings()
-	setts.ProtectionEnabled, _ = z.f.ProtectionStatus()
-	if rq.C1 {
-		setts.ClientIP = netip.MustParseAddr(zzG02C1)
-	} else {
-		setts.ClientIP = netip.MustParseAddr(zzG02Other)
+// zzG02Obs is what the client and the upstream saw for one question, in the
+// vocabulary of DnsRewriteCore!Serve.
+type zzG02Obs struct {
+	// Ask is the name the upstream was asked (with the client's question
+	// type), [] if it was not asked.  Anything else (several questions,
+	// another type) is written as ["?", description].
+	Ask []string `json:"ask"`
+	// Rcode of the reply ("?..." if the reply's question is not the one sent).
+	Rcode string `json:"rcode"`
+	// Cname is the target of the CNAME record leading the answer and owned by
+	// the queried name, [] if there is none.
+	Cname []string `json:"cname"`
+	// Vals are the record values in the answer that did not come from the
+	// upstream.
+	Vals [][]string `json:"vals"`
+	// FromUp is the name whose upstream records are in the answer, [] if none.
+	FromUp []string `json:"fromup"`
+}
+
+func (z *zzG02Srv) structured(t, text string) (tok []string) {
+	for k, v := range zzG02ValText {
+		if strings.HasPrefix(k, t+"/") && strings.TrimSuffix(v, ".") == strings.TrimSuffix(text, ".") {
+			return []string{strings.TrimPrefix(k, t+"/")}
+		}
 	}
 
+	return []string{"?" + t + ":" + text}
+}
+
+// query sends one question over UDP from the client's address and projects
+// what happened.  m is the upstream's behaviour for the name it was asked.
+func (z *zzG02Srv) query(rq *zzG02Rq, variant uint32) (o zzG02Obs, m string, err error) {
+	z.ups.take()
 	qt := zzG02QTypes[rq.Qt]
 	name := zzG02Spell(z.conc.name(rq.Host), variant)
-	res, err := z.f.CheckHost(name, qt, setts)
-	z.stats["calls"]++
+	req := &dns.Msg{}
+	req.Id = dns.Id()
+	req.RecursionDesired = true
+	req.Question = []dns.Question{{Name: name + ".", Qtype: qt, Qclass: dns.ClassINET}}
+
+	src := zzG02Other
+	if rq.C1 {
+		src = zzG02C1
+	}
+	cl := &dns.Client{Net: "udp", Timeout: 3 * time.Second,
+		Dialer: &net.Dialer{LocalAddr: &net.UDPAddr{IP: net.ParseIP(src)}, Timeout: 3 * time.Second}}
+	reply, _, err := cl.Exchange(req, z.addr)
+	z.stats["queries"]++
+	log := z.ups.take()
+	o = zzG02Obs{Ask: []string{}, Cname: []string{}, Vals: [][]string{}, FromUp: []string{}}
+	m = "answer"
 	if err != nil {
-		return zzG02Out{R: "error:" + err.Error(), Canon: []string{}, Vals: [][]string{}}, nil
-	}
-
-	return z.conc.abs(&res, qt), nil
-}
-
-// zzG02Bad is a reproduced disagreement.
-type zzG02Bad struct {
-	Kind string     `json:"kind"`
-	ID   int        `json:"id"`
-	Fam  string     `json:"fam"`
-	Cfg  zzG02Cfg   `json:"cfg"`
-	Text zzG02Text  `json:"text"`
-	Q    zzG02Rq    `json:"q"`
-	Got  zzG02Out   `json:"got"`
-	Want []zzG02Out `json:"want"`
-	// KF: the observed outcome is among the outcomes of the known finding
-	// (computed by the spec, DnsRewriteCore!SkipOutcomes).
-	KF  bool   `json:"kf"`
-	Via string `json:"via"`
-	// Salt selects the spelling of the configuration.
-	Salt string `json:"salt"`
-	// Prev and Step describe the rehearsed reconfiguration.
-	Prev *zzG02Cfg `json:"prev,omitempty"`
-	Note string    `json:"note,omitempty"`
-}
-
-// checkAll asks every question of the vector on the live filter and returns
-// the questions whose outcome is not admissible.
-func (z *zzG02Filter) checkAll(v *zzG02Vec, salt string) (bad []zzG02Bad, n int, err error) {
-	for gi := range v.Vd {
-		g := &v.Vd[gi]
-		for qi := range g.Q {
-			rq := &g.Q[qi]
-			variant := z.conc.bits(fmt.Sprintf("case/%s/%d/%d", salt, gi, qi))
-			got, aerr := z.ask(rq, variant)
-			if aerr != nil {
-				return nil, n, aerr
-			}
-			n++
-			if !zzG02In(&got, g.O) {
-				bad = append(bad, zzG02Bad{Kind: "cand", ID: v.ID, Fam: v.Fam, Cfg: v.Cfg, Text: z.curText, Q: *rq,
-					Got: got, Want: g.O, KF: zzG02In(&got, g.Kf), Salt: salt})
-			}
+		// No (usable) reply is an observation, not a harness failure; a run
+		// in which the server hardly answers at all is abandoned.
+		z.stats["no_reply"]++
+		if z.stats["no_reply"] > 12 {
+			return o, m, fmt.Errorf("exchange %s %s: %w (more than 12 questions without a reply)", name, rq.Qt, err)
 		}
-	}
-
-	return bad, n, nil
-}
-
-// zzG02Confirm reproduces the candidates of one configuration: twice on a
-// fresh filter built from the configuration with the same spelling; what does
-// not show there, by rehearsing the last reconfiguration (fresh filter with
-// the previous configuration, the same step).  It sets Kind of every candidate
-// to "bad" (reproduced both times) or "flaky".
-func zzG02Confirm(t testing.TB, conc *zzG02Conc, cands []zzG02Bad, prev *zzG02Cfg, prevSalt, salt string, stats map[string]int) {
-	if len(cands) == 0 {
-		return
-	}
-
-	same := make([]int, len(cands))
-	for i := 0; i < 2; i++ {
-		z, err := zzG02NewFilter(t, conc, &cands[0].Cfg, salt, stats)
-		if err != nil {
-			break
+		o.Rcode = "?noreply"
+		if len(log) == 1 && log[0][1] == rq.Qt {
+			o.Ask = z.conc.absName(log[0][0])
+			m = z.ups.mode(log[0][0])
 		}
-		for ci := range cands {
-			got, _ := z.ask(&cands[ci].Q, uint32(i))
-			if !zzG02In(&got, cands[ci].Want) {
-				same[ci]++
+
+		return o, m, nil
+	}
+
+	switch {
+	case len(log) == 1 && log[0][1] == rq.Qt:
+		o.Ask = z.conc.absName(log[0][0])
+		m = z.ups.mode(log[0][0])
+	case len(log) > 0:
+		o.Ask = []string{"?", fmt.Sprint(log)}
+	}
+
+	o.Rcode = dns.RcodeToString[reply.Rcode]
+	if len(reply.Question) != 1 || reply.Question[0] != req.Question[0] {
+		o.Rcode = "?question:" + fmt.Sprint(reply.Question)
+	}
+
+	odd := []string{}
+	for i, rr := range reply.Answer {
+		data := ""
+		var val []string
+		switch rr := rr.(type) {
+		case *dns.CNAME:
+			if i == 0 && strings.EqualFold(rr.Hdr.Name, name+".") {
+				o.Cname = z.conc.absName(rr.Target)
+			} else {
+				odd = append(odd, "cname@"+fmt.Sprint(i)+":"+rr.String())
 			}
-		}
-		z.close()
-	}
 
-	rest := []int{}
-	for ci := range cands {
-		if same[ci] == 2 {
-			cands[ci].Kind, cands[ci].Via = "bad", "fresh"
+			continue
+		case *dns.A:
+			a, _ := netip.AddrFromSlice(rr.A.To4())
+			data, val = a.String(), []string{z.conc.absIP(a)}
+		case *dns.AAAA:
+			a, _ := netip.AddrFromSlice(rr.AAAA.To16())
+			data, val = a.String(), []string{z.conc.absIP(a)}
+		case *dns.TXT:
+			data = strings.Join(rr.Txt, "")
+			val = z.structured("TXT", data)
+		case *dns.MX:
+			val = z.structured("MX", fmt.Sprintf("%d %s", rr.Preference, strings.TrimSuffix(rr.Mx, ".")))
+		case *dns.PTR:
+			val = z.structured("PTR", rr.Ptr)
+			if strings.HasPrefix(val[0], "?") {
+				// a host name from the hosts file
+				val = z.conc.absName(rr.Ptr)
+			}
+		case *dns.SRV:
+			val = z.structured("SRV", fmt.Sprintf("%d %d %d %s", rr.Priority, rr.Weight, rr.Port, strings.TrimSuffix(rr.Target, ".")))
+		case *dns.HTTPS:
+			val = z.structured("HTTPS", zzG02SVCBText(&rr.SVCB))
+		case *dns.SVCB:
+			val = z.structured("SVCB", zzG02SVCBText(rr))
+		default:
+			odd = append(odd, rr.String())
+
+			continue
+		}
+
+		if !strings.EqualFold(rr.Header().Name, name+".") && !(len(o.Cname) > 0) {
+			odd = append(odd, "owner:"+rr.Header().Name)
+		}
+
+		if owner, fromUp := z.ups.owner(data); data != "" && fromUp {
+			if len(o.FromUp) > 0 && strings.Join(o.FromUp, ".") != strings.Join(z.conc.absName(owner), ".") {
+				odd = append(odd, "second upstream owner "+owner)
+			}
+			o.FromUp = z.conc.absName(owner)
 		} else {
-			cands[ci].Kind = "flaky"
-			rest = append(rest, ci)
+			o.Vals = append(o.Vals, val)
 		}
-	}
-	if prev == nil || len(rest) == 0 {
-		return
 	}
 
-	same = make([]int, len(cands))
-	for i := 0; i < 2; i++ {
-		z, err := zzG02NewFilter(t, conc, prev, prevSalt, stats)
-		if err != nil {
-			break
-		}
-		if z.compatible(&cands[0].Cfg) && z.apply(&cands[0].Cfg, salt) == nil {
-			for _, ci := range rest {
-				got, _ := z.ask(&cands[ci].Q, uint32(i))
-				if !zzG02In(&got, cands[ci].Want) {
-					same[ci]++
-				}
-			}
-		}
-		z.close()
+	if len(odd) > 0 {
+		o.Vals = append(o.Vals, []string{"?odd:" + strings.Join(odd, "; ")})
 	}
-	for _, ci := range rest {
-		if same[ci] == 2 {
-			cands[ci].Kind, cands[ci].Via, cands[ci].Prev = "bad", "history", prev
-		}
-	}
+
+	return o, m, nil
 }
 
-func zzG02ReadVectors(t *testing.T) (vs []*zzG02Vec) {
-	zzReadNDJSON(t, "VERIF_IN", func(line []byte) {
-		v := &zzG02Vec{}
-		if err := json.Unmarshal(line, v); err != nil {
-			t.Fatalf("vector: %v", err)
-		}
-		vs = append(vs, v)
-	})
+func zzG02SVCBText(rr *dns.SVCB) (s string) {
+	s = fmt.Sprintf("%d %s", rr.Priority, strings.TrimSuffix(rr.Target, "."))
+	kvs := []string{}
+	for _, kv := range rr.Value {
+		kvs = append(kvs, kv.Key().String()+"="+kv.String())
+	}
+	sort.Strings(kvs)
+	if len(kvs) > 0 {
+		s += " " + strings.Join(kvs, " ")
+	}
 
-	return vs
+	return s
 }
 
-// TestZZVerifG02Replay is direction A at the filtering level.  The vectors
-// are streamed in the (seeded) order the orchestrator wrote them in: the real
-// code forces a garbage collection at every rebuild of its engines, whose cost
-// grows with the harness's own heap.
-func TestZZVerifG02Replay(t *testing.T) {
+// askAll logs the configuration in force and the observation of every
+// question.
+func (z *zzG02Srv) askAll(w *zzWriter, cfg *zzG02Cfg, qs []zzG02Rq, salt, how string, id, epoch int) (err error) {
+	w.put(map[string]any{"k": "cfg", "cfg": cfg, "how": how, "text": z.curText, "salt": salt, "id": id, "epoch": epoch})
+	for qi := range qs {
+		o, m, qerr := z.query(&qs[qi], z.conc.bits(fmt.Sprintf("case/%s/%d", salt, qi)))
+		if qerr != nil {
+			return qerr
+		}
+		w.put(map[string]any{"k": "p", "q": qs[qi], "m": m, "obs": o})
+	}
+
+	return nil
+}
+
+// TestZZVerifG02Pipeline is direction A at the pipeline level.
+func TestZZVerifG02Pipeline(t *testing.T) {
 	w := zzNewWriter(t, "VERIF_OUT")
 	defer w.close()
 
@@ -1053,8 +1145,9 @@ func TestZZVerifG02Replay(t *testing.T) {
 	conc := zzG02NewConc(seed)
 	rng := rand.New(rand.NewSource(seed))
 	stats := map[string]int{}
+	ups := &zzG02Upstream{data: map[string]string{}, seed: seed}
 
-	var z *zzG02Filter
+	var z *zzG02Srv
 	defer func() {
 		if z != nil {
 			z.close()
@@ -1062,11 +1155,7 @@ func TestZZVerifG02Replay(t *testing.T) {
 	}()
 
 	maxAge := 20 + rng.Intn(40)
-	nbad, nflaky, ncfg := 0, 0, 0
-	// at most 60 records per (family, known-finding?) class are written out
-	written := map[string]int{}
-	var prev *zzG02Cfg
-	prevSalt := ""
+	n := 0
 	zzReadNDJSON(t, "VERIF_IN", func(line []byte) {
 		v := &zzG02Vec{}
 		if err := json.Unmarshal(line, v); err != nil {
@@ -1076,222 +1165,78 @@ func TestZZVerifG02Replay(t *testing.T) {
 			return
 		}
 
-		salt := fmt.Sprintf("replay/%d", v.ID)
+		n++
+		ups.setEpoch(n)
+		salt := fmt.Sprintf("pipe/%d", v.ID)
+		how := "live"
 		var err error
-		live := z != nil && z.age < maxAge && z.compatible(&v.Cfg)
-		if live {
+		if z != nil && z.age < maxAge && z.compatible(&v.Cfg) {
 			err = z.apply(&v.Cfg, salt)
 		} else {
 			if z != nil {
 				z.close()
 			}
-			prev = nil
+			how = "fresh"
 			maxAge = 20 + rng.Intn(40)
-			z, err = zzG02NewFilter(t, conc, &v.Cfg, salt, stats)
+			z, err = zzG02NewSrv(conc, ups, &v.Cfg, salt, stats)
 		}
 		if err != nil {
-			w.put(map[string]any{"kind": "harness-error", "id": v.ID, "err": err.Error(), "cfg": v.Cfg})
 			t.Fatalf("configuration %d: %v", v.ID, err)
 		}
 
-		ncfg++
-		cands, _, err := z.checkAll(v, salt)
-		if err != nil {
+		qs := []zzG02Rq{}
+		for _, g := range v.Vd {
+			qs = append(qs, g.Q...)
+		}
+		if err = z.askAll(w, &v.Cfg, qs, salt, how, v.ID, n); err != nil {
 			t.Fatalf("asking: %v", err)
 		}
-
-		zzG02Confirm(t, conc, cands, prev, prevSalt, salt, stats)
-		for i := range cands {
-			b := &cands[i]
-			if b.Kind == "bad" {
-				nbad++
-				k := fmt.Sprintf("%s/%v", b.Fam, b.KF)
-				if written[k]++; written[k] <= 60 {
-					w.put(b)
-				}
-			} else {
-				nflaky++
-				w.put(b)
-			}
-		}
-
-		c := v.Cfg
-		prev, prevSalt = &c, salt
 	})
 
-	w.put(map[string]any{"kind": "summary", "n": ncfg, "bad": nbad, "flaky": nflaky, "stats": stats})
+	w.put(map[string]any{"k": "summary", "n": n, "stats": stats})
 }
 
-// TestZZVerifG02Probe re-runs single records (replay of a stored
-// disagreement): VERIF_IN holds zzG02Bad records; each is asked on a fresh
-// filter.
-func TestZZVerifG02Probe(t *testing.T) {
-	w := zzNewWriter(t, "VERIF_OUT")
-	defer w.close()
-
-	conc := zzG02NewConc(zzSeed())
-	stats := map[string]int{}
-	zzReadNDJSON(t, "VERIF_IN", func(line []byte) {
-		b := &zzG02Bad{}
-		if err := json.Unmarshal(line, b); err != nil {
-			t.Fatalf("record: %v", err)
-		}
-		salt := b.Salt
-		if salt == "" {
-			salt = fmt.Sprintf("replay/%d", b.ID)
-		}
-		z, err := zzG02NewFilter(t, conc, &b.Cfg, salt, stats)
-		if err != nil {
-			t.Fatalf("filter: %v", err)
-		}
-		got, _ := z.ask(&b.Q, 0)
-		text := z.curText
-		z.close()
-		w.put(map[string]any{"kind": "probe", "q": b.Q, "got": got, "want": b.Want, "text": text,
-			"admissible": zzG02In(&got, b.Want), "kf": zzG02In(&got, []zzG02Out{b.Got}) && b.KF})
-	})
-}
-
-// TestZZVerifG02Hist walks the edges of the reconfiguration machine on ONE
-// live filter (direction A for histories).
-func TestZZVerifG02Hist(t *testing.T) {
-	vs := zzG02ReadVectors(t)
+// TestZZVerifG02PipeProbe re-executes single questions on fresh servers:
+// VERIF_IN holds {cfg, q, salt, epoch} records.
+func TestZZVerifG02PipeProbe(t *testing.T) {
 	w := zzNewWriter(t, "VERIF_OUT")
 	defer w.close()
 
 	seed := zzSeed()
 	conc := zzG02NewConc(seed)
-	rng := rand.New(rand.NewSource(seed))
 	stats := map[string]int{}
-
-	states := map[string]*zzG02Vec{}
-	type edge struct {
-		dst     string
-		act     string
-		covered bool
-	}
-	adj := map[string][]*edge{}
-	nedges := 0
-	for _, v := range vs {
-		switch v.Kind {
-		case "cfg":
-			states[zzG02CfgKey(&v.Cfg)] = v
-		case "edge":
-			k := zzG02CfgKey(&v.Src)
-			adj[k] = append(adj[k], &edge{dst: zzG02CfgKey(&v.Dst), act: v.Act})
-			nedges++
-		}
-	}
-
-	limit := nedges
-	if s := zzGetenv("VERIF_G02_HIST_STEPS"); s != "" {
-		limit, _ = strconv.Atoi(s)
-	}
-
-	keys := make([]string, 0, len(states))
-	for k := range states {
-		keys = append(keys, k)
-	}
-	sort.Strings(keys)
-	if len(keys) == 0 {
-		t.Fatalf("no states")
-	}
-
-	// nearest state with an uncovered edge (BFS), as a path of edges
-	path := func(from string) (p []*edge) {
-		type item struct {
-			k string
-			p []*edge
-		}
-		seen := map[string]bool{from: true}
-		queue := []item{{k: from}}
-		for len(queue) > 0 {
-			it := queue[0]
-			queue = queue[1:]
-			es := adj[it.k]
-			order := rng.Perm(len(es))
-			for _, i := range order {
-				if !es[i].covered {
-					return append(it.p, es[i])
-				}
-			}
-			for _, i := range order {
-				e := es[i]
-				if !seen[e.dst] {
-					seen[e.dst] = true
-					queue = append(queue, item{k: e.dst, p: append(append([]*edge{}, it.p...), e)})
-				}
-			}
+	ups := &zzG02Upstream{data: map[string]string{}, seed: seed}
+	zzReadNDJSON(t, "VERIF_IN", func(line []byte) {
+		rec := &struct {
+			Cfg   zzG02Cfg `json:"cfg"`
+			Q     zzG02Rq  `json:"q"`
+			Salt  string   `json:"salt"`
+			Epoch int      `json:"epoch"`
+		}{}
+		if err := json.Unmarshal(line, rec); err != nil {
+			t.Fatalf("record: %v", err)
 		}
 
-		return nil
-	}
-
-	cur := keys[rng.Intn(len(keys))]
-	z, err := zzG02NewFilter(t, conc, &states[cur].Cfg, "hist/0", stats)
-	if err != nil {
-		t.Fatalf("filter: %v", err)
-	}
-	defer func() { z.close() }()
-
-	steps, covered, nbad, nflaky, calls := 0, 0, 0, 0, 0
-	maxAge := 150 + rng.Intn(100)
-	prevSalt := "hist/0"
-	for covered < limit {
-		p := path(cur)
-		if p == nil {
-			break
+		// twice, each time on a fresh server
+		var o, o2 zzG02Obs
+		var m string
+		var text zzG02Text
+		for i := 0; i < 2; i++ {
+			ups.setEpoch(rec.Epoch)
+			z, err := zzG02NewSrv(conc, ups, &rec.Cfg, rec.Salt, stats)
+			if err != nil {
+				t.Fatalf("server: %v", err)
+			}
+			o2 = o
+			o, m, err = z.query(&rec.Q, 0)
+			text = z.curText
+			z.close()
+			if err != nil {
+				t.Fatalf("query: %v", err)
+			}
 		}
-		for _, e := range p {
-			steps++
-			salt := fmt.Sprintf("hist/%d", steps)
-			prev := z.cur
-			dst := states[e.dst]
-			if dst == nil {
-				t.Fatalf("edge to an undescribed state")
-			}
-			if z.age >= maxAge {
-				// a restart in the current state, then the step
-				z.close()
-				if z, err = zzG02NewFilter(t, conc, &prev, prevSalt, stats); err != nil {
-					t.Fatalf("filter: %v", err)
-				}
-				maxAge = 150 + rng.Intn(100)
-			}
-			if err = z.apply(&dst.Cfg, salt); err != nil {
-				w.put(map[string]any{"kind": "harness-error", "err": err.Error(), "cfg": dst.Cfg})
-				t.Fatalf("step %d (%s): %v", steps, e.act, err)
-			}
-			if !e.covered {
-				e.covered = true
-				covered++
-			}
-
-			cands, n, cerr := z.checkAll(dst, salt)
-			if cerr != nil {
-				t.Fatalf("asking: %v", cerr)
-			}
-			calls += n
-			zzG02Confirm(t, conc, cands, &prev, prevSalt, salt, stats)
-			for i := range cands {
-				b := &cands[i]
-				b.Note = "after " + e.act
-				if b.Kind == "bad" {
-					nbad++
-					if nbad <= 200 {
-						w.put(b)
-					}
-				} else {
-					nflaky++
-					w.put(b)
-				}
-			}
-			cur, prevSalt = e.dst, salt
-		}
-	}
-
-	w.put(map[string]any{"kind": "summary", "n": steps, "edges": nedges, "covered": covered, "states": len(states),
-		"bad": nbad, "flaky": nflaky, "calls": calls, "stats": stats})
+		w.put(map[string]any{"k": "probe", "q": rec.Q, "m": m, "obs": o, "obs2": o2, "text": text})
+	})
 }
 
 // ------------------------------------------------------------- direction B
@@ -1421,24 +1366,22 @@ func zzG02BQueries(rng *rand.Rand, cfg *zzG02Cfg, n int) (qs []zzG02Rq) {
 	return qs
 }
 
-// TestZZVerifG02Trace is direction B at the filtering level: lines
-//
-//	{"k":"cfg","cfg":...,"how":"fresh"|"live"}   the configuration in force from here on
-//	{"k":"q","q":...,"out":...}                  one question and the projected result
-func TestZZVerifG02Trace(t *testing.T) {
+// TestZZVerifG02PipeTrace is direction B at the pipeline level.
+func TestZZVerifG02PipeTrace(t *testing.T) {
 	w := zzNewWriter(t, "VERIF_OUT")
 	defer w.close()
 
 	seed := zzSeed()
 	conc := zzG02NewConc(seed)
-	rng := rand.New(rand.NewSource(seed ^ 0x6702))
+	rng := rand.New(rand.NewSource(seed ^ 0x6703))
 	stats := map[string]int{}
-	ncfg := 300
+	ups := &zzG02Upstream{data: map[string]string{}, seed: seed}
+	ncfg := 120
 	if s := zzGetenv("VERIF_G02_TRACE_CFGS"); s != "" {
 		ncfg, _ = strconv.Atoi(s)
 	}
 
-	var z *zzG02Filter
+	var z *zzG02Srv
 	defer func() {
 		if z != nil {
 			z.close()
@@ -1451,7 +1394,8 @@ func TestZZVerifG02Trace(t *testing.T) {
 			hostsOn = z.cur.HostsOn
 		}
 		cfg := zzG02BCfg(rng, hostsOn)
-		salt := fmt.Sprintf("trace/%d", i)
+		salt := fmt.Sprintf("ptrace/%d", i)
+		ups.setEpoch(100000 + i)
 		how := "live"
 		var err error
 		if z != nil && z.age < 40 && z.compatible(&cfg) {
@@ -1461,16 +1405,15 @@ func TestZZVerifG02Trace(t *testing.T) {
 				z.close()
 			}
 			how = "fresh"
-			z, err = zzG02NewFilter(t, conc, &cfg, salt, stats)
+			z, err = zzG02NewSrv(conc, ups, &cfg, salt, stats)
 		}
 		if err != nil {
 			t.Fatalf("configuration %d: %v", i, err)
 		}
-
-		w.put(map[string]any{"k": "cfg", "cfg": cfg, "how": how, "text": z.curText, "salt": salt})
-		for qi, rq := range zzG02BQueries(rng, &cfg, 14) {
-			got, _ := z.ask(&rq, conc.bits(fmt.Sprintf("%s/%d", salt, qi)))
-			w.put(map[string]any{"k": "q", "q": rq, "out": got})
+		if err = z.askAll(w, &cfg, zzG02BQueries(rng, &cfg, 12), salt, how, 100000+i, 100000+i); err != nil {
+			t.Fatalf("asking: %v", err)
 		}
 	}
+
+	w.put(map[string]any{"k": "summary", "n": ncfg, "stats": stats})
 }
